@@ -104,32 +104,50 @@ def block_benign():
 
 
 def block_seeded():
+    """per seed: what caught it at first contact (recorded in its meta.json when it was confirmed, i.e. before any check was strengthened for
+    it) and what catches it now (tools/matrix.py); round 1 = variants A/B, round 2 (held out) = variants C/D"""
     mx = _matrix("seeded")
-    rows = ["| seed | breaks | what it needs to manifest | valid (tests unchanged, demo flips) | caught by |", "|------|--------|---------------------------|------|-----------|"]
-    tot = caught = 0
+    rows = ["| seed | breaks | what it needs to manifest | first contact: exit 1 from | first contact: own check | now: exit 1 from | now: exit 2 from |",
+            "|------|--------|---------------------------|------|------|------|------|"]
+    stats = {}
     for d in sorted(glob.glob(os.path.join(here, "seeded", "*"))):
         mp = os.path.join(d, "meta.json")
         if not os.path.exists(mp):
             continue
         m = json.load(open(mp))
+        if not m.get("valid_seed"):
+            continue
+        name = os.path.basename(d)
+        own = name.split("_")[0]
         am = m.get("agent_meta") or {}
-        if m.get("valid_seed"):
-            tot += 1
-            cl = m.get("caught_by") or []
-            if mx and os.path.basename(d) in mx.get("results", {}):
-                cl = [p for p, r in mx["results"][os.path.basename(d)].items() if isinstance(r, dict) and r.get("rc") == 1]
-            caught += bool(cl)
-        caught_list = m.get("caught_by") or []
-        if mx and os.path.basename(d) in mx.get("results", {}):
-            caught_list = sorted(p for p, r in mx["results"][os.path.basename(d)].items() if isinstance(r, dict) and r.get("rc") == 1)
-        cb = ", ".join(caught_list) or "**missed**"
+        ch = m.get("checks") or {}
+        rc_of = lambda v: v.get("rc") if isinstance(v, dict) else v
+        first1 = sorted(k for k, v in ch.items() if rc_of(v) == 1) or sorted(m.get("caught_by") or [])
+        own_first = {1: "exit 1", 2: "exit 2 (undecided)"}.get(rc_of(ch.get(own)), "exit 0 (silent)") if ch else ("exit 1" if own in first1 else "?")
+        now1, now2 = first1, []
+        if mx and name in mx.get("results", {}):
+            res = mx["results"][name]
+            now1 = sorted(p for p, r in res.items() if isinstance(r, dict) and r.get("rc") == 1)
+            now2 = sorted(p for p, r in res.items() if isinstance(r, dict) and r.get("rc") == 2)
+        rnd = "round 1 (A/B)" if name[-1] in "AB" else "round 2 (C/D, held out)"
+        st = stats.setdefault(rnd, dict(n=0, first_any=0, first_own=0, now_any=0, now_own=0, now_own2=0))
+        st["n"] += 1
+        st["first_any"] += bool(first1)
+        st["first_own"] += own in first1
+        st["now_any"] += bool(now1)
+        st["now_own"] += own in now1
+        st["now_own2"] += own in now2 and own not in now1
+        cb = ", ".join(now1) or "**missed**"
         if m.get("note"):
             cb += " (" + m["note"] + ")"
-        rows.append("| %s | %s | %s | %s | %s |" % (os.path.basename(d), (am.get("summary") or "")[:200].replace("|", "\\|").replace("\n", " "),
-                                                   (am.get("needs_to_manifest") or "")[:200].replace("|", "\\|").replace("\n", " "),
-                                                   "yes" if m.get("valid_seed") else "no", cb))
+        rows.append("| %s | %s | %s | %s | %s | %s | %s |" % (name, (am.get("summary") or "")[:170].replace("|", "\\|").replace("\n", " "),
+                                                          (am.get("needs_to_manifest") or "")[:150].replace("|", "\\|").replace("\n", " "),
+                                                          ", ".join(first1) or "none", own_first, cb, ", ".join(now2) or "none"))
     rows.append("")
-    rows.append("Valid seeds: %d; caught by at least one check: %d." % (tot, caught))
+    for rnd, st in sorted(stats.items()):
+        rows.append("%s: %d valid seeds. First contact: %d caught by the property's own check, %d by some check. Now: %d by the own check "
+                    "(%d more: own check undecided, exit 2), %d by some check." % (rnd, st["n"], st["first_own"], st["first_any"], st["now_own"], st["now_own2"], st["now_any"]))
+        rows.append("")
     return "\n".join(rows)
 
 
